@@ -7,6 +7,7 @@ every application is logged.  Raises Lost(...) when an anchor cannot be found
 (the caller reports UNDECIDED, never a violation).
 """
 import json
+import hashlib
 import os
 import re
 import sys
@@ -209,12 +210,12 @@ class Unit:
                 desugars[int(w[1])] = w[2] if len(w) > 2 else 'it__%s' % w[1]
                 cur = None
             elif s.startswith('//@outline '):
-                # R12: //@outline NAME | <signature of the helper> | <call text> | <first text> ~~> <last text>
+                # R12: //@outline NAME | <signature of the helper> | <call text> | <first text> ~~> <last text> | sha=<digest>
                 op_ = [x.strip() for x in s[len('//@outline '):].split(' | ')]
-                if len(op_) != 4 or ' ~~> ' not in op_[3]:
+                if len(op_) != 5 or ' ~~> ' not in op_[3] or not op_[4].startswith('sha='):
                     raise Lost('template: bad //@outline line: %s' % s)
                 cur = []
-                outlines.append((op_[0], op_[1], op_[2], op_[3].split(' ~~> ')[0].strip(), op_[3].split(' ~~> ')[1].strip(), cur))
+                outlines.append((op_[0], op_[1], op_[2], op_[3].split(' ~~> ')[0].strip(), op_[3].split(' ~~> ')[1].strip(), cur, op_[4][4:]))
             elif s.startswith('//@rewrite'):
                 all_ = s.startswith('//@rewriteall')
                 body = s.split(' ', 1)[1]
@@ -298,7 +299,7 @@ class Unit:
         # a helper function declared `external_body`, and replaced by a call of that helper.  Evaluation
         # order and the values passed are unchanged (the helper's parameters are the variables the
         # expression mentions); the helper's contract is ASSUMED and reported in the trusted base.
-        for oname, osig, ocall, ofirst, olast, olines in outlines:
+        for oname, osig, ocall, ofirst, olast, olines, osha in outlines:
             # blanks in the two texts stand for any run of white space (the expression may span lines)
             rx1 = re.compile(r'\s+'.join(re.escape(w) for w in ofirst.split()))
             rx2 = re.compile(r'\s+'.join(re.escape(w) for w in olast.split()))
@@ -313,6 +314,11 @@ class Unit:
                 raise Lost('fn %s: outline %s: last text not found: %s' % (name, oname, olast))
             b_ = m2.end()
             otext = text[a_:b_]
+            # the assumed contract is tied to the exact expression: a changed text (modulo white space) is a lost anchor
+            digest = hashlib.sha1(' '.join(otext.split()).encode('utf-8')).hexdigest()[:12]
+            if digest != osha:
+                raise Lost('fn %s: outline %s: the outlined expression changed (sha %s, template pins %s); its assumed '
+                           'contract no longer applies' % (name, oname, digest, osha))
             rewrites.append((otext, ocall, False))
             self.outlined[oname] = dict(name=oname, sig=osig, spec=olines, text=otext, of=name, file=rel,
                                         line=src.line_of(a_), props=kv.get('props', ''))
